@@ -19,6 +19,11 @@ and the file is read through the public API  bnp.open(path, buffer_type=.., lazy
 Phase A sweeps the key variants over every chunk size cs = 1 .. len+2 (quick tier: record boundaries +-1, record
 lengths, 1, 2, len-1 .. len+1), A2 a letter in every numeric / alphabet column, B every variant with read() and
 three chunk sizes (each record its own chunk / two records / whole file).
+Phase L (before A, own time allowance): the nonnumeric class with LONG offending values - a value of every width around
+and beyond 19 characters (the widest legal int64) made of digits with one bad character at each end / second / middle /
+20th, 19th, 18th from the end, identifier-like tokens (k letters + t digits) and two numbers joined by a letter, in the
+numeric columns (digit-matrix, signed/ragged, Optional[int] and float paths); signatures
+nonnumeric:<letter|letters|punct>-<in-value-of-up-to-19-chars | before- | within- | across-last-19-chars-of-longer-value>:...
 
 Contracts (oracle = the property statement; the expected line is computed from the generator's own bookkeeping: number
 of data lines before the offending line, counted from the first data line after the header):
@@ -272,6 +277,144 @@ def violations(fmt, n):
     return out
 
 
+# --------------------------------------------------------------------------------------------------------------
+# phase L: non-numeric values of EVERY WIDTH with the offending character(s) at EVERY REGION of the field
+#
+# The violations above are one or three characters wide (a digit of a short number replaced).  A non-numeric value in
+# a numeric column is just as often a long token (an identifier, a concatenation of two fields, a number with a
+# stray character): the column is laid out as a right-aligned rows x width matrix, so width and the distance of the bad
+# character from the END of the field are parameters of their own.  Widths sweep the neighbourhood of 19 (the most
+# decimal digits an int64 holds: widest legal value) and beyond; all other characters of the value are digits.
+
+_INT64_DIGITS = 19
+
+
+def _digits(w, off=0):
+    return "".join("1234567890"[(off + i) % 10] for i in range(w))
+
+
+def _long_widths(full):
+    return [2, 18, 19, 20, 21, 27, 40, 64] if full else [18, 19, 20, 21, 27]
+
+
+def _long_positions(w, full):
+    """positions of the bad character: both ends and the two sides of "19 characters from the end"; full grid:
+    second, middle and 18th from the end in addition"""
+    ps = {0, w - 1, w - _INT64_DIGITS - 1, w - _INT64_DIGITS}
+    if full:
+        ps.update((1, w // 2, w - _INT64_DIGITS + 1))
+    return sorted(p for p in ps if 0 <= p < w)
+
+
+def _long_region(w, first_bad, last_bad):
+    """sub-class (part of the signature) of a value of width w whose non-digit characters lie in first_bad..last_bad"""
+    if w <= _INT64_DIGITS:
+        return "in-value-of-up-to-19-chars"
+    if last_bad < w - _INT64_DIGITS:
+        return "before-last-19-chars-of-longer-value"
+    if first_bad >= w - _INT64_DIGITS:
+        return "within-last-19-chars-of-longer-value"
+    return "across-last-19-chars-of-longer-value"
+
+
+_NUMERIC_KINDS = ("int", "optint", "float", "floatexp")
+
+
+def _is_signed(c):
+    return any(v is not None and v[:1] in ("+", "-") for v in c["values"])
+
+
+def _long_key_columns():
+    """(format, attr) of the key columns of phase L: the first unsigned int column of every delimited format and the
+    first column (over all formats) of every other (kind, signed) combination - the layout / parsing code is shared by
+    the columns of one kind"""
+    keys, seen = set(), set()
+    for fmt in FORMATS.values():
+        have_int = False
+        for c in (fmt.cols or []):
+            k = (c["kind"], _is_signed(c))
+            if c["kind"] not in _NUMERIC_KINDS:
+                continue
+            if k == ("int", False):
+                if not have_int:
+                    keys.add((fmt.name, c["attr"]))
+                    have_int = True
+            elif k not in seen:
+                seen.add(k)
+                keys.add((fmt.name, c["attr"]))
+    return keys
+
+
+def long_value_violations(fmt, n, quick):
+    """same structure as violations(); vids  long|<attr>|<what>|<width>|<position>  (kept out of violations() so that
+    the phases A/A2/B and their seeded sample stay what they were).
+    quick: small grid in the key columns; thorough: full grid in every numeric column"""
+    out = {}
+    if fmt.kind != "delimited":
+        return out
+    d = fmt.delimiter
+    keycols = _long_key_columns()
+
+    def add(attr, ci, what, w, p, value, cc, first_bad, last_bad):
+        def fn(r, ci=ci, value=value):
+            f = r[0].split(d)
+            f[ci] = value
+            return [d.join(f)]
+        vid = "long|%s|%s|%d|%d" % (attr, what, w, p)
+        out[vid] = {"vid": vid, "vclass": "nonnumeric", "sub": "%s-%s" % (cc, _long_region(w, first_bad, last_bad)),
+                    "fn": fn, "diagnosed": True, "positions": list(range(n)), "line_in_record": 0, "value": value,
+                    "attr": attr}
+
+    for ci, c in enumerate(fmt.cols):
+        kind = c["kind"]
+        if kind not in _NUMERIC_KINDS:
+            continue
+        attr = c["attr"]
+        key = (fmt.name, attr) in keycols
+        if quick and not key:
+            continue
+        full = not quick
+        for w in _long_widths(full):
+            for p in _long_positions(w, full):
+                v = _digits(w)
+                add(attr, ci, "char-letter", w, p, v[:p] + "x" + v[p + 1:], "letter", p, p)
+        if full and key:
+            for w in _long_widths(False):
+                for p in _long_positions(w, False):
+                    v = _digits(w)
+                    add(attr, ci, "char-punct", w, p, v[:p] + ";" + v[p + 1:], "punct", p, p)
+        # identifier-like tokens: k letters followed by a run of t digits (k + t wide)
+        for k, t in ([(1, 18), (1, 19), (2, 19), (4, 15), (4, 19), (4, 23), (8, 36), (12, 30)] if full else
+                     [(4, 23), (1, 19), (4, 15)]):
+            add(attr, ci, "identifier", k + t, k, "ENSGXTRANSCR"[:k] + _digits(t, 7), "letters", 0, k - 1)
+        # a number, a stray letter, a number (two values run together): bad character t characters before the end
+        for t in ([1, 18, 19, 20, 21, 30] if full else [19, 20]):
+            for head in ((3, 12) if full else (3,)):
+                w = head + 1 + t
+                add(attr, ci, "joined", w, head, _digits(head) + "x" + _digits(t, 3), "letter", head, head)
+    return out
+
+
+_LCACHE = {}
+
+
+def _long_viols(fmt, n, quick):
+    k = (fmt.name, n, quick)
+    if k not in _LCACHE:
+        _LCACHE[k] = long_value_violations(fmt, n, quick)
+    return _LCACHE[k]
+
+
+def _lookup(fmt, n, vid):
+    if vid.startswith("long|"):
+        for quick in (True, False):
+            v = _long_viols(fmt, n, quick).get(vid)
+            if v is not None:
+                return v
+        raise KeyError(vid)
+    return _viols(fmt, n)[vid]
+
+
 def representative_vids(fmt, viols, level):
     """level "key": one variant per class and column KIND (the first int column, the first float column, ... with a plain
     letter), every column-count / marker / plus variant class once.  level "column": additionally a plain letter in EVERY
@@ -301,7 +444,7 @@ def build(fmt, n, vid=None, q=None):
     recs = good_records(fmt, n)
     expected = None
     if vid is not None:
-        v = violations(fmt, n)[vid]
+        v = _lookup(fmt, n, vid)
         expected = sum(len(r) for r in recs[:q]) + v["line_in_record"]
         recs[q] = v["fn"](list(recs[q]))
     text = fmt.header + "".join(line + "\n" for r in recs for line in r)
@@ -361,7 +504,7 @@ class FileUnderTest:
     def __init__(self, col, tmp, fmt, n, vid, q):
         self.col, self.fmt, self.n, self.vid, self.q = col, fmt, n, vid, q
         self.data, self.expected = build(fmt, n, vid, q)
-        self.v = _viols(fmt, n)[vid] if vid is not None else None
+        self.v = _lookup(fmt, n, vid) if vid is not None else None
         base = os.path.join(tmp, "f%d" % col.evaluations)
         self.paths = {False: base + fmt.suffix, True: base + fmt.suffix + ".gz"}
         self._written = set()
@@ -371,7 +514,7 @@ class FileUnderTest:
         # the violated column is a float column that, in this file, mixes values with and without an exponent marker
         self.mixed_exp = False
         if self.v is not None and self.v["vclass"] == "nonnumeric":
-            attr = vid.split("|")[1]
+            attr = self.v.get("attr") or vid.split("|")[1]
             ci = [c["attr"] for c in fmt.cols].index(attr)
             if fmt.cols[ci]["kind"] in ("float", "floatexp"):
                 body = self.data[len(fmt.header):].decode().split("\n")[:-1]
@@ -515,6 +658,21 @@ def _sweep(col, tmp, fmt, n, vid, q, plan, gz_plan):
         fut.cleanup()
 
 
+def _sweep_long(col, tmp, fmt, n, vid, q, gz):
+    """phase L: whole-file read and chunks of about two records, eager and lazy (thorough: the gzip file too)"""
+    fut = FileUnderTest(col, tmp, fmt, n, vid, q)
+    try:
+        cs = chunk_sizes(fmt, fut.data, n, "few")[1]      # about two records per chunk
+        for lazy in (False, True):
+            fut.evaluate("read", 0, lazy, False)
+            fut.evaluate("chunks", cs, lazy, False)
+        if gz:
+            fut.evaluate("read", 0, bool(q % 2), True)
+        fut.finish()
+    finally:
+        fut.cleanup()
+
+
 def run(tier="quick", seed=0):
     quick = tier == "quick"
     n = 3 if quick else 4
@@ -523,6 +681,13 @@ def run(tier="quick", seed=0):
                     "record position q; read with read() and read_chunks(cs) x {eager, lazy+materialise} x {plain, gzip}. "
                     "Phase A: key variants (one per class and column kind) x chunk sizes " +
                     ("{record boundaries +-1, record lengths, 1, 2, len-1..len+1}" if quick else "1..len+2 (all; files longer than 110 bytes: every second size + boundary neighbourhoods)") +
+                    "; phase L: a non-numeric value of every width in " + str(_long_widths(not quick)) + " (digits with ONE bad character at "
+                    "each end / 20th and 19th from the end" + ("" if quick else " / second / middle / 18th from the end") +
+                    "; identifier-like tokens of k letters + t digits; two numbers joined by a letter) in " +
+                    ("the key numeric columns (first unsigned int column of every format, first column of every other kind)" if quick
+                     else "every numeric column") +
+                    ", record position rotating"
+                    " x {read(), read_chunks(about two records)} x {eager, lazy}" + ("" if quick else "; in the key columns also punctuation and a gzip read()") +
                     "; phase A2: a letter in every numeric/alphabet column, every marker/plus variant x boundary chunk sizes; "
                     "phase B: every variant (bad character x placement x column) x read() + 3 chunk sizes" +
                     (" (seeded sample within the time budget)" if quick else "") +
@@ -533,6 +698,11 @@ def run(tier="quick", seed=0):
                   "chunk_sizes_A": "boundaries+-1, record lengths, 1, 2, len-1..len+1" if quick else "1..len+2 (len > 110: every 2nd + boundaries+-1)",
                   "chunk_sizes_A2": "boundaries+-1, record lengths, 1, 2, len-1..len+1",
                   "chunk_sizes_B": "1, first two records + 1, len+1", "lazy": [False, True], "gzip": [False, True],
+                  "long_value_widths_L": _long_widths(not quick),
+                  "long_value_bad_char_positions_L": "0, w-1, w-20, w-19" + ("" if quick else ", 1, w//2, w-18"),
+                  "long_value_columns_L": sorted("%s.%s" % k for k in _long_key_columns()) if quick else "every int / Optional[int] / float column",
+                  "long_value_shapes_L": ["digits with one bad character " + ("x" if quick else "x or ;"),
+                                          "k letters + t digits (identifier)", "digits + letter + t digits (joined)"],
                   "bad_characters": {"int": "x P ' ' ; . ABC '' - + 1-2", "float": "x P ' ' ; - ABC '' - + 1-2 . 1.2.3 2e- and exponent forms 1e e1 twenty 1ex", "strand": "x K 1 ' ' *",
                                      "dna": "x N 1 ' ' -"}, "placements": ["first", "last", "only"]}
     prev_disable = logging.root.manager.disable
@@ -555,6 +725,26 @@ def _run(col, tmp, quick, n):
         _sweep(col, tmp, fmt, n, None, None, "boundaries", "thin" if quick else "full")
     col.phases.append("baseline@%ds" % (time.time() - col.t0))
     done = set()
+
+    # phase L: long / every-width non-numeric values (own time allowance, added to the budget of the phases below so
+    # that those enumerate what they did before)
+    t_l = time.time()
+    allowance = 10 if quick else 60
+    files_l = [(fmt, vid, q) for fmt in order for vid, v in _long_viols(fmt, n, quick).items() for q in v["positions"]]
+    # every (column, value) at ONE record position, rotating over the positions
+    files_l = [(fmt, vid, q) for k, (fmt, vid, q) in enumerate(files_l) if q == (k // n) % n]
+    col.bounds["phase_L_files"] = len(files_l)
+    complete = True
+    for k, (fmt, vid, q) in enumerate(files_l):
+        if time.time() - t_l > allowance:
+            col.exhaustive = False
+            complete = False
+            break
+        _sweep_long(col, tmp, fmt, n, vid, q, not quick and (fmt.name, vid.split("|")[1]) in _long_key_columns())
+        col.bounds["phase_L_files_done"] = k + 1
+    col.budget_s += time.time() - t_l
+    if complete:
+        col.phases.append("L@%ds" % (time.time() - col.t0))
 
     def phase(name, level, plan, gz_plan):
         for fmt in order:
